@@ -3,7 +3,10 @@
    model's dbl / sgl); the float PRINTERS (lexical, serde_json's Display) appear as
    universally quantified functions constrained by explicit premises. *)
 From JsonSyntax Require Import Base.Prelude Base.Value Base.Float64 Spec.NumSpelling Spec.SerdeTyped
-  Model.Serde Proofs.SerdeProofs Proofs.SerdeShape Proofs.SerdeViaJson.
+  Model.Serde Proofs.SerdeProofs Proofs.SerdeShape Proofs.SerdeViaJson
+  Spec.EcmaNumber Proofs.Float64Proofs Proofs.NumberProofs Proofs.NearestDouble Proofs.Float32Proofs Proofs.Float32Total.
+From Coq Require Import Reals SpecFloat.
+From Flocq Require Import Core BinarySingleNaN.
 Local Open Scope Z_scope.
 
 (* to_value then from_value yields the datum (with -0.0 read back as +0.0), for every
@@ -18,6 +21,42 @@ Theorem C16_roundtrip :
   exists v, tser fmt_f64 fmt_f32 d = Ok v /\
             exists n, forall fuel, (n <= fuel)%nat -> de E fuel t v = Ok (norm d).
 Proof. exact roundtrip_RT. Qed.
+(* ---------------------------------------------------------------------------------------
+   The binary32 reference (these depend on Flocq's theorems, i.e. on the four standard-library
+   axioms): `sgl`, through which the model reads an f32 spelling, IS the IEEE-754 binary32
+   round-to-nearest-even of the exact decimal (infinity beyond the range), depends on a spelling
+   only through its value, and the shortest-digits binary32 printer used as the reference
+   instance of `fmt_f32` reads back to the same bit pattern for EVERY finite f32: the float
+   premise of C16_roundtrip is met by that instance, not merely assumed.
+   --------------------------------------------------------------------------------------- *)
+Theorem C16_nearest_single_correct : forall d, 0 <= d_mant d ->
+  let x := decimal_R d in
+  let z := nearest_single d in
+  if Rlt_bool (Rabs (round32R x)) (bpow radix2 128) then
+    valid_binary 24 128 z = true /\ is_finite_SF z = true /\ sign_SF z = d_neg d /\
+    SF2R radix2 z = round32R x
+  else z = S754_infinity (d_neg d).
+Proof. exact nearest_single_correct. Qed.
+
+Theorem C16_sgl_spelling : forall n n' d d',
+  read_decimal n = Some d -> read_decimal n' = Some d' -> dec_equiv d d' -> sgl n = sgl n'.
+Proof. exact sgl_spelling. Qed.
+
+Theorem C16_f32_printer_round_trips : forall b,
+  f32_wf b = true -> f32_finite b = true ->
+  sgl (fmt_f32_ref b) = sf32_of_bits b /\ sf32_bits (sgl (fmt_f32_ref b)) = b.
+Proof. exact fmt_f32_ref_round_trip_bits. Qed.
+
+(* why reading through f64 first was a defect (repaired by 5885c93): double rounding *)
+Example C16_double_rounding_differs :
+  let n := s2l "7.038531e-26" in
+  sf_bits (dbl n) = 0x3ab5c87fb0000000 /\
+  sf32_bits (round32 (dbl n)) = 0x15ae43fe /\
+  sf32_bits (sgl n) = 0x15ae43fd /\
+  round32 (dbl n) <> sgl n.
+Proof. exact double_rounding_differs. Qed.
+
+
 Print Assumptions C16_roundtrip.
 
 Theorem C16_nonfinite :
@@ -93,3 +132,7 @@ Theorem C16_reference_instances_sample :
   forallb (fun b => f32_wf b && f32_finite b && (de_f32 (fmt_f32_ref b) =? f32_norm b)) sample32 = true.
 Proof. exact reference_instances_sample. Qed.
 Print Assumptions C16_reference_instances_sample.
+Print Assumptions C16_nearest_single_correct.
+Print Assumptions C16_sgl_spelling.
+Print Assumptions C16_f32_printer_round_trips.
+Print Assumptions C16_double_rounding_differs.
